@@ -649,6 +649,16 @@ func (nfs *Nfs) NFSPROC3_RENAME(args nfstypes.RENAME3args) nfstypes.RENAME3res {
 	var success bool = false
 	var done bool = false
 	var from *inode.Inode
+	var toAncestors []common.Inum
+
+	if !fh.Equal(args.From.Dir, args.To.Dir) {
+		// A directory must not be moved into its own subtree. Find the
+		// ancestors of the target directory first (without holding other
+		// locks); renameMu keeps them unchanged until this rename is done.
+		nfs.renameMu.Lock()
+		defer nfs.renameMu.Unlock()
+		toAncestors = nfs.ancestors(fh.MakeFh(args.To.Dir).Ino)
+	}
 
 	for !success {
 		op = fstxn.Begin(nfs.fsstate)
@@ -699,6 +709,18 @@ func (nfs *Nfs) NFSPROC3_RENAME(args nfstypes.RENAME3args) nfstypes.RENAME3res {
 			break
 		}
 		util.DPrintf(3, "frominum %d toinum %d\n", frominum, toinum)
+		var intoItself = false
+		for _, a := range toAncestors {
+			if a == frominum {
+				intoItself = true
+			}
+		}
+		if intoItself {
+			// the source is the target directory or one of its ancestors
+			errRet(op, &reply.Status, nfstypes.NFS3ERR_INVAL)
+			done = true
+			break
+		}
 
 		toInumLookup, _ := dir.LookupName(dipto, op, args.To.Name)
 		toinum = toInumLookup
